@@ -372,28 +372,12 @@ func (c *cmafIngester) start(ctx context.Context) {
 		c.log.Info("Next segment availability time", "time", availabilityTime)
 		if c.testNowMS == nil {
 			deltaTime := time.Duration(availabilityTime-int64(nowMS)) * time.Millisecond
-			for deltaTime <= 0 {
+			if deltaTime <= 0 {
 				msg := fmt.Sprintf("Segment availability time in the past: %d", availabilityTime)
 				c.report = append(c.report, msg)
 				c.log.Error(msg)
-				err := c.sendMediaSegments(ctx, nextSegNr, int(availabilityTime), false /* isLast */)
-				if err != nil {
-					msg := fmt.Sprintf("Error sending media segments: %v", err)
-					c.report = append(c.report, msg)
-					c.log.Error(msg)
-					return
-				}
-				nextSegNr++
-				availabilityTime, err = calcSegmentAvailabilityTime(c.asset, refRep, uint32(nextSegNr), c.cfg)
-				if err != nil {
-					msg := fmt.Sprintf("Error calculating segment availability time: %v", err)
-					c.report = append(c.report, msg)
-					c.log.Error(msg)
-					return
-				}
-				nowMS = int(time.Now().UnixNano() / 1e6)
-				deltaTime = time.Duration(availabilityTime-int64(nowMS)) * time.Millisecond
 			}
+			// A timer that is not in the future fires at once, so that the main loop catches up
 			timer.Reset(deltaTime)
 		}
 	}
